@@ -5,11 +5,11 @@ CONSTANT DropKind = "none"
 CONSTANT DropIdx = 0
 CONSTANT Cases <- Cases5H
 CONSTANT Sel = {}
+CONSTANT DegShift = 0
 INIT InitRows
 NEXT NextRows
 INVARIANT Satisfied
 INVARIANT PinnedInv
 INVARIANT CountInv
 INVARIANT LayoutInv
-INVARIANT UniqueInv
 CHECK_DEADLOCK FALSE
